@@ -2469,7 +2469,7 @@ def run(ctx: Ctx) -> None:
     for _ in range(1 if ctx.tier == "quick" else 8):
         keys_tie(ctx, ctx.budget(2000, 5000))
     run_pool(ctx, ctx.budget(5000, 200000), True, "gen")
-    run_pool(ctx, ctx.budget(1200, 40000), True, "seq")
+    run_pool(ctx, ctx.budget(1200, 30000), True, "seq")
     run_pool(ctx, ctx.budget(100, 3000), False, "big")      # records / essences of 1 KiB .. 128 KiB: oracle only
     report_sfx(ctx)
     ctx.extra.pop("_keys_round", None)
@@ -2479,7 +2479,7 @@ def run(ctx: Ctx) -> None:
 def search(ctx: Ctx, broken: list) -> None:
     """A proof or the correspondence is broken and the oracle saw nothing: larger budget, oracle only."""
     run_pool(ctx, ctx.budget(5000, 200000) * (10 if ctx.tier == "quick" else 2), False, "search")
-    run_pool(ctx, ctx.budget(1200, 40000) * (10 if ctx.tier == "quick" else 2), False, "seqsearch")
+    run_pool(ctx, ctx.budget(1200, 30000) * (10 if ctx.tier == "quick" else 2), False, "seqsearch")
     run_pool(ctx, ctx.budget(100, 3000) * (5 if ctx.tier == "quick" else 2), False, "bigsearch")
     ctx.extra["oracle_failures_by_signature"] = ctx.extra.pop("_per_signature", {})
 
